@@ -59,6 +59,7 @@ OBLIGATIONS = {
     'O3.3': {'engine': 'B', 'title': 'get_live_files reports every table file of every live version (all seven levels)', 'run': builder.o3_3_live_files, 'confirm': builder.o3_3_confirm},
     'O2.4': {'engine': 'B', 'title': 'flush: immutable memtable dropped / obsolete files removed only after table write and manifest edit succeeded; failures recorded', 'run': dbpaths.o2_4_flush_ordering, 'confirm': dbpaths.o2_4_confirm},
     'O11.1': {'engine': 'B', 'title': 'obsolete-file removal deletes exactly the WALs / tables / temp files / manifests nobody needs, nothing after a background error', 'run': dbpaths.o11_1_remove_obsolete, 'confirm': dbpaths.o11_1_confirm},
+    'O4.2': {'engine': 'B', 'title': 'database iterator = cursor over the visible pairs (newest entry <= snapshot per user key, tombstones hidden) under every cursor pattern', 'run': iters.o4_2_database_iterator, 'confirm': iters.o4_2_confirm},
 }
 # Engine A obligations (Kani harnesses in /verif/harness/src/proofs.rs; runner in /verif/kani/runner.py)
 import importlib.util as _u, os as _os
@@ -80,8 +81,8 @@ PROPERTIES = {
     'C02': {'obligations': ['O12.3', 'O2.4']},
     'C15': {'obligations': ['O15.5', 'O4.3', 'O15.1', 'O15.2', 'O15.3']},
     'C16': {'obligations': ['O12.3', 'O16.2']},
-    'C03': {'obligations': ['O1.6', 'O3.2a', 'O3.2b', 'O3.3']},
-    'C04': {'obligations': ['O4.1', 'O4.3']},
+    'C03': {'obligations': ['O1.6', 'O3.2a', 'O3.2b', 'O3.3', 'O4.2']},
+    'C04': {'obligations': ['O4.1', 'O4.2', 'O4.3']},
     'C10': {'obligations': ['O7.1', 'O1.3', 'O10.3', 'O10.5', 'O1.7']},
     'C11': {'obligations': ['O3.3', 'O11.1']},
 }
